@@ -773,7 +773,8 @@ impl<S4, NI> BSwap for u128x1_sse2<YesS3, S4, NI> {
 impl<S4, NI> BSwap for u128x1_sse2<NoS3, S4, NI> {
     #[inline(always)]
     fn bswap(self) -> Self {
-        unimplemented!()
+        // reverse the four 32-bit words, then the bytes within each
+        Self::new(unsafe { bswap32_s2(_mm_shuffle_epi32(self.x, 0b0001_1011)) })
     }
 }
 
